@@ -2,7 +2,7 @@
    Statements only; proofs in Proofs/DescriptiveP.v on top of Base/GroupBy.v and Base/CumSum.v.
    All theorems hold for every input list (any length, NULLs, single-valued or all-distinct
    columns, any number of source datasets). *)
-From Coq Require Import List Bool ZArith QArith Sorting.Sorted.
+From Coq Require Import List Bool ZArith QArith Sorting.Sorted Sorting.Permutation.
 From Splinkv Require Import Base.GroupBy Base.CumSum Model.Descriptive Proofs.DescriptiveP.
 Import ListNotations.
 Local Open Scope Z_scope.
@@ -128,6 +128,45 @@ Proof.
 Qed.
 Print Assumptions C20_unlinkables_cumulative.
 
+(* profile_columns: value frequencies, the percentile table and the top / bottom n values. *)
+Theorem C20_profile_value_frequencies :
+  forall col,
+    (forall r, In r (value_frequencies col) ->
+       In (vf_value r) (non_null col) /\ value_count r = freq col (vf_value r) /\ 0 < value_count r) /\
+    (forall v, In v (non_null col) -> exists r, In r (value_frequencies col) /\ vf_value r = v) /\
+    StronglySorted (fun a b => vf_value a < vf_value b) (value_frequencies col) /\
+    sum_by value_count (value_frequencies col) = total_non_null_rows col.
+Proof.
+  intros col. split; [apply value_frequencies_spec|]. split; [apply value_frequencies_complete|].
+  split; [apply value_frequencies_sorted|apply value_counts_add_up].
+Qed.
+Print Assumptions C20_profile_value_frequencies.
+
+(* value_count_cumsum of the row for count c = number of non-null cells whose value occurs at
+   least c times; sum_tokens = number of non-null cells whose value occurs exactly c times *)
+Theorem C20_profile_percentiles :
+  forall col p, In p (percentiles col) ->
+    (exists r, In r (value_frequencies col) /\ value_count r = pc_value_count p) /\
+    value_count_cumsum p = countZ (fun x => pc_value_count p <=? freq col x) (non_null col) /\
+    sum_tokens_in_value_count_group p = countZ (fun x => freq col x =? pc_value_count p) (non_null col) /\
+    percentile_ex_nulls p = (1 - qdiv (value_count_cumsum p) (total_non_null_rows col))%Q /\
+    percentile_inc_nulls p = (1 - qdiv (value_count_cumsum p) (total_rows_incl_nulls col))%Q.
+Proof. exact percentiles_spec. Qed.
+Print Assumptions C20_profile_percentiles.
+
+Theorem C20_profile_top_bottom_n :
+  forall n col,
+    (exists rest, Permutation (top_n n col ++ rest) (value_frequencies col) /\
+       length (top_n n col) = Nat.min n (length (value_frequencies col)) /\
+       StronglySorted (fun x y => value_count y <= value_count x) (top_n n col) /\
+       (forall x y, In x (top_n n col) -> In y rest -> value_count y <= value_count x)) /\
+    (exists rest, Permutation (bottom_n n col ++ rest) (value_frequencies col) /\
+       length (bottom_n n col) = Nat.min n (length (value_frequencies col)) /\
+       StronglySorted (fun x y => value_count x <= value_count y) (bottom_n n col) /\
+       (forall x y, In x (bottom_n n col) -> In y rest -> value_count x <= value_count y)).
+Proof. intros n col. split; [apply top_n_spec|apply bottom_n_spec]. Qed.
+Print Assumptions C20_profile_top_bottom_n.
+
 (* ------------------------------------------------------------------ non-vacuity *)
 Example C20_example_tf :
   tf_table [Some 3; None; Some 1; Some 3; Some 2; None] = [(1, (1 # 4)%Q); (2, (1 # 4)%Q); (3, (2 # 4)%Q)]
@@ -154,3 +193,9 @@ Example C20_example_unlinkables :
       (unlinkables_data [(5, 99 # 100); (1 # 3, 1 # 2); (7, 1); (2 # 3, 500001 # 1000000)]%Q)
   = [((1 # 2)%Q, (1 # 2)%Q); ((99 # 100)%Q, (3 # 4)%Q)].
 Proof. vm_compute. reflexivity. Qed.
+Example C20_example_profile :
+  let c := [Some 1; Some 2; Some 1; None; Some 3; Some 1; Some 2; Some 1; Some 2] in
+  map (fun p => (pc_value_count p, sum_tokens_in_value_count_group p, value_count_cumsum p, Qred (percentile_ex_nulls p)))
+      (percentiles c) = [(1, 1, 8, 0%Q); (3, 3, 7, (1 # 8)%Q); (4, 4, 4, (1 # 2)%Q)]
+  /\ map vf_value (top_n 2 c) = [1; 2] /\ map vf_value (bottom_n 1 c) = [3].
+Proof. vm_compute. repeat split; reflexivity. Qed.
